@@ -5,12 +5,13 @@ most n nodes that has exactly one raising leaf, i.e. every L-term with the
 raising leaf substituted at each leaf position in turn, rendered over several
 lines with one subform per line (mc/ref/tb_render.py: the start line of every
 form differs from that of its parent, children and siblings), the raising
-leaf in each of 23 shapes:
+leaf in each of 26 shapes:
   - read from the source text: a call of the plain function `boom` that raises
     a marker exception (one line; split over lines; as a method call `o.boom`;
     as `(.boom o ..)`), `(raise (Marker i))`, a division by zero, a failing
     subscript, an unbound name, a missing attribute, an f-string field, an
-    augmented assignment (one / several operands) whose in-place operation raises;
+    augmented assignment (one / several operands) whose in-place operation raises,
+    the first iterable of a comprehension (a real one / one lowered to a generator function);
   - as the ARGUMENT of a user macro that returns it / unquotes it / splices it
     / passes it on to another macro (the raising form keeps its own position);
   - produced by a user macro's TEMPLATE (the raising form has no source text of
@@ -47,7 +48,7 @@ LEVEL_TEXT = ("Every program of the generated language up to the size bound, wit
               "that exists only in a macro template: within the macro call's span). A reference interpreter written from the "
               "documentation decides whether the form is reached, so a silent run cannot pass for a positioned one. Exhaustive within "
               "the bound: every composition of up to n constructs (statement-lifted forms, comprehensions, functions called later, "
-              "try/with/loops) around the raising form is covered, in 23 leaf shapes and 6 whole-term macro wrappers.")
+              "try/with/loops) around the raising form is covered, in 26 leaf shapes and 6 whole-term macro wrappers.")
 RULE = ("L-terms enumerated by node count then constructor order, kept when they contain exactly one raising leaf; a case = "
         "(term, module-or-function wrapper, leaf shape, whole-term macro wrapper); contexts x the raising leaf likewise (thorough); "
         "non-trivial = the reference interpreter says the raising leaf is reached AND (the term has a statement-producing constructor "
